@@ -1208,7 +1208,11 @@ def rt_c06(tier="quick", first_only=False, count=None):
             n += 1
             x = rng.normal(size=xb + ev)
             c = None if cs is None else rng.normal(size=cb + cs)
-            lp = np.asarray(d.log_prob(x, c))
+            try:
+                lp = np.asarray(d.log_prob(x, c))
+            except Exception as ex:  # noqa: BLE001
+                fails.append(dict(what=f"{name}: log_prob of x batch {xb} with condition batch {cb} raised {type(ex).__name__}: {str(ex)[:160]}", case=dict(dist=name, x_batch=xb, cond_batch=cb)))
+                continue
             bshape = np.broadcast_shapes(xb, cb)
             if lp.shape != bshape:
                 fails.append(dict(what=f"{name}: log_prob batch shape {lp.shape}, expected {bshape}", case=dict(dist=name)))
@@ -1226,8 +1230,12 @@ def rt_c06(tier="quick", first_only=False, count=None):
             n += 1
             key = jr.PRNGKey(7)
             c = None if cs is None else rng.normal(size=cb + cs)
-            s1 = np.asarray(d.sample(key, ss, c))
-            s2 = np.asarray(d.sample(key, ss, c))
+            try:
+                s1 = np.asarray(d.sample(key, ss, c))
+                s2 = np.asarray(d.sample(key, ss, c))
+            except Exception as ex:  # noqa: BLE001
+                fails.append(dict(what=f"{name}: sample(sample_shape={ss}) with condition batch {cb} raised {type(ex).__name__}: {str(ex)[:160]}", case=dict(dist=name, sample_shape=ss, cond_batch=cb)))
+                continue
             want_shape = ss + cb + ev
             case = dict(dist=name, sample_shape=ss, cond_batch=cb)
             if s1.shape != want_shape:
